@@ -63,8 +63,10 @@ impl AsyncRichIndexerHandle {
                 )
                 .await?;
 
-                let mut last_id = 0;
-                let mut count = 0i32;
+                // The cursor is (id of the last transaction, number of its cells returned so far).
+                // When this page goes on inside the transaction the previous page stopped in,
+                // the count goes on from the offset that was skipped.
+                let (mut last_id, mut count) = last_cursor.unwrap_or((0, 0));
                 let txs = txs
                     .into_iter()
                     .map(|(id, block_number, tx_index, tx_hash, io_type, io_index)| {
